@@ -23,7 +23,9 @@ _SELFCHECK_EVERY = 97
 
 
 def _canon_outcome(o):
-    return json.dumps({k: o.get(k) for k in ("cls", "viol", "skip")}, sort_keys=True, default=repr)
+    return json.dumps({"cls": o.get("cls"), "skip": o.get("skip"),
+                       "viol": sorted(json.dumps(v.get("sig"), sort_keys=True) for v in o.get("viol") or [])},
+                      sort_keys=True, default=repr)
 
 
 def _init_worker():
